@@ -20,17 +20,20 @@ static inline int m_dwarf_child(Dwarf_Die *d, Dwarf_Die *r)
   if (i + 1 < (int)g_n && g_par[i + 1] == i) { set_die(r, i + 1); return 0; }
   return 1;
 }
-static inline int m_dwarf_siblingof(Dwarf_Die *d, Dwarf_Die *r)
+static inline int m_next_sibling_index(int i)          /* index of the next sibling of DIE i, -1 if none */
 {
-  int i = die_index(d);
-  if (g_par[i] < 0) return 1;                           /* a unit DIE has no siblings */
+  if (g_par[i] < 0) return -1;                          /* a unit DIE has no siblings */
   for (int j = i + 1; j < NN; ++j)
     if (j < (int)g_n && !is_descendant(j, i))
-      {
-        if (g_par[j] == g_par[i]) { set_die(r, j); return 0; }
-        return 1;
-      }
-  return 1;
+      return g_par[j] == g_par[i] ? j : -1;
+  return -1;
+}
+static inline int m_dwarf_siblingof(Dwarf_Die *d, Dwarf_Die *r)
+{
+  int j = m_next_sibling_index(die_index(d));
+  if (j < 0) return 1;
+  set_die(r, j);
+  return 0;
 }
 static inline Dwarf_Die *m_dwarf_offdie(void *dw, unsigned long off, Dwarf_Die *r)
 {
@@ -43,6 +46,38 @@ static inline int m_dwarf_haschildren(Dwarf_Die *d)
   if (i + 1 < (int)g_n && g_par[i + 1] == i) return 1;
   return g_claims_children[i] ? 1 : 0;
 }
+#ifdef DW_MODEL_ATTRS
+/* dwarf_attr_integrate (die, DW_AT_sibling, &attr): the attribute of the DIE itself, else of the DIE named by its
+   DW_AT_abstract_origin / DW_AT_specification (followed transitively, as elfutils does); only DW_AT_sibling (0x01) is modelled.
+   dwarf_attr: the DIE's own attribute only.  The attribute is identified by its owner: valp = (owner index + 1). */
+/* Dwarf_Attribute is only among the generated types when the lowered code uses it; the model goes through its layout
+   (libdw.h: unsigned code; unsigned form; unsigned char *valp; struct Dwarf_CU *cu) */
+typedef struct m_attr_layout { unsigned code; unsigned form; unsigned char *valp; void *cu; } m_attr_layout;
+static inline void *m_dwarf_attr_common(Dwarf_Die *d, unsigned name, void *rv, _Bool integrate)
+{
+  m_attr_layout *r = (m_attr_layout *)rv;
+  int i = die_index(d);
+  M_ASSERT(name == 0x01, "only DW_AT_sibling lookups are modelled");
+  for (unsigned hop = 0; hop < NN; ++hop)
+    {
+      if (g_has_sibling_attr[i] && m_next_sibling_index(i) >= 0) { r->code = 0x01; r->form = 0x13; r->valp = (unsigned char *)(unsigned long)(i + 1); r->cu = 0; return r; }
+      if (!integrate || g_origin[i] < 0 || g_origin[i] >= (int)g_n) return (void *)0;
+      i = g_origin[i];
+    }
+  return (void *)0;
+}
+static inline void *m_dwarf_attr_integrate(Dwarf_Die *d, unsigned name, void *r) { return m_dwarf_attr_common(d, name, r, 1); }
+static inline void *m_dwarf_attr(Dwarf_Die *d, unsigned name, void *r) { return m_dwarf_attr_common(d, name, r, 0); }
+static inline Dwarf_Die *m_dwarf_formref_die(void *atv, Dwarf_Die *r)
+{
+  unsigned long id = (unsigned long)((m_attr_layout *)atv)->valp;
+  M_ASSERT(id >= 1 && id <= g_n, "a valid attribute is passed to libdw");
+  int t = m_next_sibling_index((int)(id - 1));
+  if (t < 0) return (Dwarf_Die *)0;
+  set_die(r, t);
+  return r;
+}
+#endif
 static inline unsigned long m_dwarf_dieoffset(Dwarf_Die *d) { return g_off[die_index(d)]; }
 static inline unsigned long m_dwarf_cuoffset(Dwarf_Die *d)
 {
